@@ -177,7 +177,18 @@ func VerifHarness_C13_sync_step() {
 		bcR.poolRoutine() // the engine delivers exactly one trySync tick
 	} else {
 		go bcR.poolRoutine()
-		time.Sleep(450 * time.Millisecond)
+		// a sync pass ends with the block executed or the serving peer dropped: wait for either
+		// (not a fixed sleep: the machine may be loaded), then let the routine finish its pass
+		for i := 0; i < 2000; i++ {
+			pool.mtx.Lock()
+			done := len(pool.peers) == 0 || pool.height != H
+			pool.mtx.Unlock()
+			if done {
+				break
+			}
+			time.Sleep(5 * time.Millisecond)
+		}
+		time.Sleep(150 * time.Millisecond)
 		bcR.Stop()
 		time.Sleep(60 * time.Millisecond)
 	}
